@@ -321,10 +321,24 @@ def run_case(case, ctx):
       ctx.count("estimator_layers_checked")
       m = float(np.abs(outs[l.name][rows]).max())
       if m > 0 and l.name in sizes and 2.0 ** sizes[l.name] < m * (1 - 1e-6):
-        rmax = max(abs(ranges[l.name][0]), abs(ranges[l.name][1]))
+        # would a bound that adds the bias *after* scaling the weight sums by the input range have held?
+        ws = l.get_weights()
+        k = np.asarray(ws[0], dtype=np.float64)
+        if type(l).__name__ == "QDepthwiseConv2D":
+          k = k.reshape(k.shape[0] * k.shape[1], -1)              # taps x (cin*dm) output channels
+        else:
+          k = k.reshape(-1, k.shape[-1])                          # fan-in x output channels
+        b = np.asarray(ws[1], dtype=np.float64) if l.use_bias else np.zeros(k.shape[1])
+        lo_, hi_ = ranges[l.name]
+        pos, neg = np.where(k > 0, k, 0).sum(0), np.where(k < 0, k, 0).sum(0)
+        top = pos * hi_ + neg * lo_ + b if True else None
+        bot = neg * hi_ + pos * lo_ + b
+        correct = float(np.max(np.maximum(np.abs(top), np.abs(bot))))
+        mech = "bias_term_mishandled" if (l.use_bias and 2.0 ** np.ceil(np.log2(max(correct, 1e-300))) >= m * (1 - 1e-6)) else "other"
         ctx.violation({"kind": "estimator_below_observed_output", "layer": type(l).__name__,
-                       "bias": bool(l.use_bias), "input_range_below_one": bool(rmax < 1)},
-                      "%s: analyze_accumulator = %d bits but |output| reaches %g for inputs in %r" % (l.name, sizes[l.name], m, ranges[l.name]),
+                       "bias": bool(l.use_bias), "mechanism": mech},
+                      "%s: analyze_accumulator = %d bits but |output| reaches %g for inputs in %r (a bound adding the bias after the range scaling gives %g)" % (
+                          l.name, sizes[l.name], m, ranges[l.name], correct),
                       {"range": ranges[l.name], "rows": tag})
   ctx.sample({"layers": [(l["t"], l.get("fam")) for l in spec["layers"]], "input": spec["input"], "pattern": pattern,
               "source_quantizer": case["src"], "n_inputs": int(x.shape[0])})
